@@ -53,8 +53,7 @@ func genRec(cfg Config, emit func(string, bool, []string)) {
 		mode := "exact"
 		batch := 0
 		if c%4 == 3 {
-			mode = "oracle" // batch operations: decided by the oracle only
-			batch = 1
+			batch = 1 // batch operations (Model.ReconcilerBatch)
 		}
 		set := ""
 		if c%2 == 1 {
